@@ -44,7 +44,10 @@
       `enc`, backwards in `dec`.
   NOT PROVED IN GENERAL: `cryptoBlockAsmX16Internal` (its round macro `subRoundX16` stashes the state of 16 blocks
   in the 256-byte `tmp` buffer — which the Go wrapper makes the SAME buffer as `dst` — and reloads it several times
-  per round): one kernel-evaluated test only; X2 / X4 / X8 called in place (dst = src): not stated.
+  per round): one kernel-evaluated test only.  X2 / X4 / X8 called in place (dst = src) are not stated: that shape
+  does not occur — `cryptoBlocks` of sm4/sm4_gcm_arm64.go calls every wide kernel as
+  `cryptoBlockAsmXn(&roundKeys[0], &tmp[0], &counter[0])` with two distinct local arrays, which is the disjoint
+  shape proved above (only `cryptoBlockAsm` is reached with dst = src, through `Encrypt(b, b)`; proved).
 -/
 import SMGo.Proofs.ISAValArm64Spec
 import SMGo.Proofs.ISAValArm64Wide
